@@ -469,6 +469,6 @@ Definition wstep (w : wstate) (c : wcall) : res ret := step (run_calls 2) w c.
    earlier results; the per-call results are recorded *)
 Fixpoint drive (w : wstate) (cs : list wcall) (acc : list bool) : res (wstate * list bool) :=
   match cs with
-  | [] => Ok (w, rev acc)
+  | [] => Ok (w, rev_append acc [])
   | c :: r => do '(w', ok) <- wstep w c; drive w' r (ok :: acc)
   end.
